@@ -317,9 +317,10 @@ func Analyze(tr *Trace) *Analyzer {
 								a.add("C04", "duplicate-up-seid", fmt.Sprintf("establishment returned UP SEID %#x which session #%d still holds", upseid, o.h), i)
 							}
 							// a released SEID may be re-issued only after its previous session is gone from the data plane
-							for k := range st.DPPre {
+							for _, k := range SortedKeys(st.DPPre) {
 								if k.SEID == upseid && !a.refused[k] {
 									a.add("C04", "seid-reused-before-cleanup", fmt.Sprintf("UP SEID %#x issued while rule %s of its previous session is still in the data plane", upseid, k), i)
+									a.add("C05", "new-session-inherits-rules", fmt.Sprintf("the new session %#x starts with rule %s of an ended session installed under its SEID (its reports and traffic now count for the new session)", upseid, k), i)
 									break
 								}
 							}
@@ -755,6 +756,12 @@ func (a *Analyzer) c11c12(st *Step, s *mSess, deletion bool) {
 			if _, ex := s.pdrURR[r.ID]; ex {
 				ambiguous = true      // duplicate PDR create: outside C12's histories
 				s.pdrAmb[r.ID] = true // which of the two lists the UPF kept depends on which create the data plane refused
+				// ... and so does what either list's URRs count as referenced by
+				for _, u := range append(append([]uint32{}, s.pdrURR[r.ID]...), r.URRs...) {
+					if m := s.urr[u]; m != nil {
+						m.tainted = true
+					}
+				}
 			}
 			s.pdrURR[r.ID] = append([]uint32{}, r.URRs...)
 		}
